@@ -45,6 +45,24 @@ def _has_col(e) -> bool:
     return bool(found)
 
 
+def _valfree(e) -> bool:
+    """no column reaches the *value* of the expression: a literal, a case expression with such values (its
+    conditions may mention columns), or an operator call over such arguments.  Polars folds such a case
+    expression to a scalar when its mask has no true value (engine finding D51)."""
+    if not isinstance(e, dict):
+        return True
+    if "lit" in e:
+        return True
+    if "case" in e:
+        vals = [b[1] for b in e["case"]] + ([e["default"]] if e.get("default") is not None else [])
+        return all(_valfree(v) for v in vals)
+    if "cast" in e:
+        return _valfree(e["cast"])
+    if "fn" in e:
+        return bool(e.get("args")) and all(_valfree(a) for a in e["args"]) and e["fn"] not in AGG_OPS | WIN_OPS
+    return False
+
+
 def analyze(program: dict, obs: list[dict]) -> dict[str, dict]:
     """per statement id: facts about the statement and the state of its input table(s)"""
     cache = {o["id"]: o.get("cache") for o in obs}
@@ -173,6 +191,9 @@ def triggers_of(program: dict, facts: dict[str, dict]) -> dict[str, list[str]]:
             if not found and "join" in {by_id0[a]["op"] for a in anc0 if a in by_id0}:
                 _walk(st, lambda d: found.append(1) if d.get("fn") in ("horizontal_min", "horizontal_max") and
                       any(isinstance(a, dict) and "lit" in a for a in d.get("args", [])) else None)
+            if not found:
+                _walk(st, lambda d: found.append(1) if ("fn" in d and d.get("args") and d["fn"] not in AGG_OPS | WIN_OPS
+                                                       and all(_valfree(a) for a in d["args"])) else None)
             if found:
                 hit("D51", sid)
         if op in ("mutate", "filter", "summarize", "arrange", "group_by"):
